@@ -176,6 +176,13 @@ def scan_helper(ctx, key, name, want_flag, mutating):
     for p, evs in ret_paths(ctx, b):
         ctx.oblige(1, sample='%s [%s] -> %s' % (name, p.signature(), fmt(p.ret)))
         r = p.ret
+        if r is not None and r[0] == 'call' and r[2] == 'std::option::Option::is_some' and r[3] and not mutating:
+            # `flag && wait_list.iter().position(|s| s.eq(sig)).is_some()`: same as any()
+            inner = r[3][0]
+            if inner[0] in ('ref', 'rawptr') and len(inner) > 2 and inner[2] is not None:
+                inner = inner[2]
+            if inner[0] == 'call' and inner[2] == 'std::iter::Iterator::position':
+                r = ('call', inner[1], 'std::iter::Iterator::any', inner[3])
         if r is not None and r[0] == 'call' and r[2] == 'std::iter::Iterator::any' and not mutating:
             # `flag && wait_list.iter().any(|s| s.eq(sig))` returned directly
             from mir import ci_field_ref
@@ -497,9 +504,9 @@ def mentions_fields(b, names):
 
 
 INSERT = {'push_back': 'back', 'push_front': 'front'}
-REMOVE = {'pop_front': 'front', 'pop_back': 'back'}
+REMOVE = {'pop_front': 'front', 'pop_back': 'back', 'drain_all': 'front'}  # drain_all: the whole buffer, oldest first
 ORDER_PRESERVING = {'remove', 'clear', 'retain', 'truncate'}
-READONLY = {'len', 'is_empty', 'iter', 'capacity', 'front', 'back', 'get', 'contains', 'as_slices'}
+READONLY = {'len', 'is_empty', 'iter', 'capacity', 'front', 'back', 'get', 'contains', 'as_slices', 'exhausted'}
 
 
 @rule('Q1', ['C02', 'C19', 'C08'], 'end discipline of the buffer and the wait list: insert at one end, remove at the other, only order-preserving removals')
